@@ -98,13 +98,18 @@ def timer_units(props):
     return units
 
 
-def rx_units(props=ALL_SESSION_PROPS + ('C04', 'C05', 'C10')):
+def rx_units(props=ALL_SESSION_PROPS + ('C04', 'C05', 'C10'), rows=None):
     from contracts import protocol_rx as RX
     units = []
 
     def b(it, name):
         p = it.p
         S = Session(it, with_protocol=True, peer_id_fork=(name in ('_open_received', 'parse_buffer')))
+        if rows is not None and rows.get(name) is not None:
+            p.assume(rows[name](S))
+            if not p.check_feasible_now():
+                from pyvc.values import Infeasible
+                raise Infeasible()
         roots = [S.fsm, S.peering, it.prog.models.conf, S.P]
         args = [S.P]
         if name in ('_open_received', '_update_received', '_keepalive_received'):
